@@ -1,5 +1,6 @@
 SPECIFICATION MCSpec
 CONSTANTS Malformed = "ascoded"
+ ApiErr = "ascoded"
  Variant = "bgctx"
  AltForks = {"electra"}
 INVARIANTS CtxPropagates
